@@ -319,13 +319,8 @@ func MergeHeaders(src []*Header) (h *Header, reflinks [][]*Reference, err error)
 			}
 			if r.owner != h {
 				// r was not actually added, so use the ref
-				// that h owns.
-				for _, hr := range h.refs {
-					if equalRefs(r, hr) {
-						r = hr
-						break
-					}
-				}
+				// of that name that h owns.
+				r = h.refs[h.seenRefs[r.name]]
 			}
 			links[id] = r
 		}
@@ -487,19 +482,21 @@ func (bh *Header) AddReference(r *Reference) error {
 		} else if !equalRefs(r, &Reference{id: -1, name: er.name, lRef: er.lRef}) {
 			return errDupReference
 		}
-		if r.md5 == "" {
-			r.md5 = er.md5
+		// Take the optional fields of r, keeping the Reference
+		// that is owned by bh, with its id, in place.
+		if r.md5 != "" {
+			er.md5 = r.md5
 		}
-		if r.assemID == "" {
-			r.assemID = er.assemID
+		if r.assemID != "" {
+			er.assemID = r.assemID
 		}
-		if r.species == "" {
-			r.species = er.species
+		if r.species != "" {
+			er.species = r.species
 		}
-		if r.uri == nil {
-			r.uri = er.uri
+		if r.uri != nil {
+			er.uri = r.uri
 		}
-		bh.refs[dupID] = r
+		er.otherTags = nil
 		return nil
 	}
 	if r.owner != nil || r.id >= 0 {
